@@ -52,7 +52,7 @@ Theorem C13_cached_refines_pure_repaired tk d ops :
   outs repaired tk (init d) ops = pure_outs tk d ops.
 Proof.
   intros Ha Ho Hops. apply cached_refines_pure_thm; [reflexivity | exact Ha | exact Ho |].
-  rewrite forallb_forall in Hops |- *. intros o Hin. rewrite (Hops o Hin). destruct o as [| | | |? [?|]| | | | |[?|]| | | |]; reflexivity.
+  rewrite forallb_forall in Hops |- *. intros o Hin. rewrite (Hops o Hin). destruct o as [| | | |? [?|]| | | | |[?|]| | | | |]; reflexivity.
 Qed.
 
 (** [_guarded] for F100 / F102 / F101 on pint as it is (all three quirks ON): histories without
@@ -83,6 +83,19 @@ Theorem C13_define_keeps_registered r ud k d :
   resolve (add_unit_def r ud) k = Ok d ∧ resolve r k = Ok d ∧
   ∀ dk x, r_dims r !! dk = Some x → r_dims (add_unit_def r ud) !! dk = Some x.
 Proof. exact (define_keeps_registered_thm r ud k d). Qed.
+
+(** the same for the definition of a new PREFIX: the unit and dimension tables are untouched *)
+Theorem C13_define_prefix_keeps_registered r p k d :
+  r_units r !! k = Some d →
+  resolve (add_prefix r p) k = Ok d ∧ r_dims (add_prefix r p) = r_dims r.
+Proof. exact (define_prefix_keeps_registered_thm r p k d). Qed.
+(** [define_conservative] applies to [bronto- = 1e33] on the default registry: every name in play
+    keeps its reading, while [brontometer] — not in play before — gets one *)
+Example C13_define_prefix_conservative_default :
+  playb default_reg demo_names = true ∧
+  stableb default_reg (add_prefix default_reg bronto) demo_names = true ∧
+  bool_decide (resolve default_reg "brontometer" = resolve (add_prefix default_reg bronto) "brontometer") = false.
+Proof. split; [exact default_reg_play|]. split; [exact bronto_stable | exact bronto_new_reading]. Qed.
 
 (** F9: [get_compatible_units] after [define] — the table is only built at start-up *)
 Theorem C13_compat_after_define_refuted :
